@@ -6,6 +6,30 @@ fn main() {
     let args: Vec<String> = std::env::args().collect();
     if args.len() < 2 { eprintln!("usage: vh <Cxx> [quick|thorough] [--replay <file>]"); std::process::exit(2) }
     let id = args[1].to_uppercase();
+    if id == "DEBUG-SSH" {
+        use bc_components::{Signer, Verifier};
+        for scheme in ["ssh-ed25519", "ssh-ecdsa-p256", "ssh-dsa", "schnorr"] {
+            let idn = props::c09::identity("B", scheme);
+            let msg = [0x11u8; 32];
+            let sig = idn.sk.sign_with_options(&msg, idn.opts.clone());
+            match sig { Ok(s) => println!("{scheme}: signed; verify={} ", idn.pk.verify(&s, &msg)), Err(e) => println!("{scheme}: sign failed {e}") }
+            use bc_envelope::prelude::*;
+            let mut fails = (0, 0, 0);
+            for i in 0..300 {
+                let e = Envelope::new(format!("msg{i}")).add_signature_opt(&idn.sk, idn.opts.clone(), None);
+                let e2 = Envelope::try_from_cbor_data(e.to_cbor_data()).unwrap();
+                let sigs = e.objects_for_predicate(known_values::SIGNED);
+                let s0 = sigs[0].extract_subject::<bc_components::Signature>();
+                let fresh = idn.sk.sign_with_options(e.subject().digest().data(), idn.opts.clone()).unwrap();
+                if !idn.pk.verify(&fresh, e.subject().digest().data()) { fails.0 += 1 }
+                if e.has_signature_from(&idn.pk).ok() != Some(true) { fails.1 += 1 }
+                if e2.has_signature_from(&idn.pk).ok() != Some(true) { fails.2 += 1 }
+                let _ = s0;
+            }
+            println!("   300 signatures: fresh-verify failures={} in-envelope failures={} after-roundtrip failures={}", fails.0, fails.1, fails.2);
+        }
+        return;
+    }
     if id == "GEN-SEALED" {
         use bc_envelope::prelude::*;
         let (_, pk) = explore::x_keys();
